@@ -201,6 +201,9 @@ func compareThroughGetters(sp *url.SearchParams, model listModel, names []string
 // (or name+value for sortabs): code point order (Go strings) and UTF-16 code unit order (the
 // standard) differ only there (DESIGN §7.5); such sort cases are not judged.
 func sortAmbiguous(l listModel) bool {
+	if len(l) < 2 {
+		return false // nothing to order
+	}
 	supp, high := false, false
 	for _, p := range l {
 		for _, r := range p.Name + p.Value {
